@@ -262,7 +262,7 @@ func (c14) Run(e *Env) {
 	}
 
 	lastCompressedDamaged := false
-	nSteps := e.Range(3, 24)
+	nSteps := e.Range(3, 24*e.Depth())
 	for step := 0; step < nSteps; step++ {
 		e.Settle()
 		if d := absorb(); len(d) > 0 {
